@@ -854,6 +854,46 @@ func (ce *CEnv) evalCall(n *ast.CallExpr) (Val, error) {
 				return Val{}, fmt.Errorf("isnewloop outside of a loop clause")
 			}
 			return bval(IntCmp("<", a.C[0], ce.loopEntry.allocW)), nil
+		case "tape":
+			a, err := ce.eval(n.Args[0])
+			if err != nil {
+				return Val{}, err
+			}
+			return Val{T: types.Typ[types.Uint8], C: []*Term{UF("tape", BV8, ce.toIdx(a))}}, nil
+		case "from_tape":
+			// from_tape(s, start): s[k] == tape(start+k) for every k < len(s)
+			a, err := ce.eval(n.Args[0])
+			if err != nil {
+				return Val{}, err
+			}
+			st, err := ce.eval(n.Args[1])
+			if err != nil {
+				return Val{}, err
+			}
+			va, err := ce.contentAt(a)
+			if err != nil {
+				return Val{}, err
+			}
+			start := ce.toIdx(st)
+			return bval(rangeEq(va, va.base, va.ln, func(rel *Term) *Term { return UF("tape", BV8, BVBin("bvadd", start, rel)) })), nil
+		case "frame_outside":
+			// frame_outside(s): the backing array of s is unchanged (w.r.t. the old state) outside s's range
+			a, err := ce.eval(n.Args[0])
+			if err != nil {
+				return Val{}, err
+			}
+			names, sorts := elemMaps(ce.st, a.T)
+			var conj []*Term
+			for i, nm := range names {
+				hs := ArraySort(IntSort, ArraySort(BV64, sorts[i]))
+				An := NameArray(Select(ce.st.heapMap(nm, hs), a.Arr()))
+				Ao := NameArray(Select(ce.old.heapMap(nm, hs), a.Arr()))
+				qcount++
+				j := BoundVar(fmt.Sprintf("j!f%d", qcount), BV64)
+				in := And(BVCmp("bvsle", a.Off(), j), BVCmp("bvslt", j, BVBin("bvadd", a.Off(), a.Len())))
+				conj = append(conj, Forall([]*Term{j}, Implies(Not(in), Eq(Select(An, j), Select(Ao, j))), []*Term{Select(An, j)}))
+			}
+			return bval(And(conj...)), nil
 		case "arr":
 			a, err := ce.eval(n.Args[0])
 			if err != nil {
